@@ -115,7 +115,10 @@ pub(crate) fn run(seed: u64, n: u64, out: &mut Out) {
                     let mut what: &'static str = if !expect_ok { "spends-evicted-parent" } else if parent_pending { "valid-spends-pending" } else { "valid" };
                     if expect_ok && rng.chance(1, 2) {
                         expect_ok = false;
-                        match rng.below(11) {
+                        match rng.below(13) {
+                            // shaped like a cellbase: a single input with the null out point (all-zero hash, index 0xffffffff) - nothing a
+                            // user may submit: it names no cell the client knows and would mint its outputs from nothing
+                            11 | 12 => { what = "cellbase-shaped-null-input"; inputs = vec![(packed::Byte32::zero(), u32::MAX, 0)]; if what == "cellbase-shaped-null-input" && rng.chance(1, 2) { outputs = vec![out_cell(1_000_000 * 1_0000_0000)]; } }
                             10 => { what = "empty-dep-group"; groups.push((group.clone(), 2)); }   // the code itself stays reachable through the other deps
                             9 => { what = "dep-group-with-unknown-member"; deps.clear(); groups = vec![(group.clone(), 1)]; }
                             0 => { what = "outputs-exceed-inputs"; outputs = vec![out_cell(cap + 1)]; }
